@@ -49,6 +49,21 @@ MathBridge(f, a) ==
                      [] r.t = "anyerr" -> r
                      [] OTHER          -> Open
 
+\* ---- bridge to the base conversions: XlBits takes the common value encoding as it is; a decimal result of up to nine digits is
+\* that whole number (longer ones - up to 549755813887 - have no counterpart among the short rationals: Open).  An error value as
+\* the number is the result; an error value as `places` is the result when the number itself converts (otherwise: some error)
+LibBits == INSTANCE XlBits
+BitsBridge(f, a) ==
+    IF Len(a) < 1 \/ \E i \in 1..Len(a) : a[i].t \in {"open", "anyerr", "arr"} THEN Open
+    ELSE IF a[1].t = "err" THEN a[1]
+    ELSE IF Len(a) = 2 /\ a[2].t = "err" THEN
+         (LET r == LibBits!BitsCall(f, <<a[1]>>) IN
+          IF LibBits!Dst(f) = "DEC" THEN Open           \* (a second argument the function does not take)
+          ELSE IF r.t = "txt" THEN a[2] ELSE IF r.t = "open" THEN Open ELSE AnyErr)
+    ELSE LET r == LibBits!BitsCall(f, a) IN
+         IF r.t = "dec" THEN (IF Len(r.dg) <= 9 THEN Whole((IF r.neg THEN -1 ELSE 1) * LibMath!NatVal(r.dg)) ELSE Open)
+         ELSE r
+
 HasErr(a) == \E i \in 1..Len(a) : a[i].t = "err"
 HasDate(a) == \E i \in 1..Len(a) : a[i].t = "date"
 
@@ -62,5 +77,7 @@ LibCall(f, a) ==
       [] f \in LibCrit!CritFuncs -> LibCrit!CritCall(f, a)
       [] f \in LibFin!FinFuncs -> LibFin!FinCall(f, a)
       [] f \in MathExact -> MathBridge(f, a)
+      [] f \in LibBits!BitsFuncs -> BitsBridge(f, a)
+      [] f \in {"TRUE", "FALSE"} -> IF Len(a) = 0 THEN Bool(f = "TRUE") ELSE Open
       [] OTHER -> Open
 =============================================================================
